@@ -731,6 +731,14 @@ func runParse(c *ctx, prop string) error {
 			GroupBias: 8, DeepNesting: 60}
 		if prop == "C13" {
 			o.ManyUnknown = 80
+			// C13 quantifies over every document: also strings that are not valid UTF-8 (yaml.v3 carries them as
+			// !!binary scalars), in whatever position the generator puts a string
+			o.Str = func(r *core.Rand) string {
+				if r.Intn(400) == 0 {
+					return core.Pick(r, []string{"\xff\xfe", "ok\xc3", "\x80", "a\xf0\x28\x8c\x28b"})
+				}
+				return parseStr(r)
+			}
 		}
 		var src []byte
 		style := "given"
@@ -748,6 +756,12 @@ func runParse(c *ctx, prop string) error {
 		}
 		if src == nil {
 			continue
+		}
+		if prop == "C13" && style == "yaml-block" && c.only == nil && len(src) > 0 && src[0] != '-' && src[0] != '[' && src[0] != '{' && rng.Intn(25) == 0 {
+			// written as text, not through any encoder: binary scalars (bytes that are not valid UTF-8) as direct values
+			// of an order-preserving mapping under an unknown top-level key
+			src = append(append([]byte(nil), src...), []byte("zz_binary_values:\n    token: !!binary //4=\n    plain: x\n    more: !!binary gICA\n")...)
+			style = "yaml-block+binary-scalars"
 		}
 		var tree any
 		var terr error
@@ -791,7 +805,13 @@ func runParse(c *ctx, prop string) error {
 			got = "ok " + vl.Enc(dump.Pipeline(p)) + " " + vl.Enc(warns)
 		}
 		treeV := dump.Any(tree)
-		shards[i%nShard].Add(vl.Escape("parse "+vl.Enc(treeV)), vl.Escape(got))
+		textual := utf8.ValidString(vl.Enc(treeV)) && utf8.ValidString(got)
+		if textual {
+			shards[i%nShard].Add(vl.Escape("parse "+vl.Enc(treeV)), vl.Escape(got))
+		} else {
+			// the line protocol carries text: documents with raw non-UTF-8 strings are judged by the direct oracles only
+			c.res.Hist("non-utf8-not-sent-to-model")
+		}
 		c.res.Case(string(src), true)
 		c.res.Hist("style." + style)
 		if !usable {
@@ -871,7 +891,7 @@ func runParse(c *ctx, prop string) error {
 		}
 		// ---------- model: marshal ----------
 		jtree, jterr := decodeTree(jb)
-		if jterr == nil {
+		if jterr == nil && textual {
 			shards[i%nShard].Add(vl.Escape("normalform "+vl.Enc(treeV)), vl.Escape("ok "+vl.Enc(dump.Any(jtree))))
 		}
 		// the YAML leg's value tree (every mapping level sorted on both sides: key order is C08's subject);
@@ -925,6 +945,77 @@ func runParse(c *ctx, prop string) error {
 		base := comparablePipeline(p, false)
 		baseJ := comparablePipeline(p, true)
 		exoticTyped := timestampInTypedPosition(treeV)
+		// the stand-alone JSON decoders: one command step, and a plugin list (also written as ONE JSON object, whose
+		// key order is the plugin order)
+		if !exoticTyped {
+			// (the JSON-leg findings apply to these decoders as they do to Parse)
+			saKnown := ""
+			if hasEmptyPrimaryWithAlias(treeV) {
+				if id, ok := c.known.has("empty-primary-with-alias"); ok {
+					saKnown = id
+				}
+			}
+			if saKnown == "" && hasEmptyishSkip(treeV) {
+				if id, ok := c.known.has("adjustment-skip-emptyish"); ok {
+					saKnown = id
+				}
+			}
+			for _, st := range commandStepsOf(p.Steps) {
+				wrap := func(cs *pipeline.CommandStep) string {
+					return comparablePipeline(&pipeline.Pipeline{Steps: pipeline.Steps{cs}}, true)
+				}
+				if sb, err := json.Marshal(st); err == nil {
+					var cs pipeline.CommandStep
+					if err := cs.UnmarshalJSON(sb); err != nil {
+						c.res.Fail(core.OracleFailure{What: "CommandStep.UnmarshalJSON fails on the step's own JSON", Input: desc, Got: err.Error()})
+					} else if got, want := wrap(&cs), wrap(st); got != want {
+						c.res.Fail(core.OracleFailure{What: "CommandStep.UnmarshalJSON of the step's own JSON gives a different step", Input: desc, Got: firstDiff(got, want), Known: saKnown})
+					}
+				}
+				if len(st.Plugins) == 0 {
+					continue
+				}
+				want := wrap(&pipeline.CommandStep{Plugins: st.Plugins})
+				if pb, err := json.Marshal(st.Plugins); err == nil {
+					var pl pipeline.Plugins
+					if err := json.Unmarshal(pb, &pl); err != nil {
+						c.res.Fail(core.OracleFailure{What: "Plugins.UnmarshalJSON fails on the list's own JSON", Input: desc, Got: err.Error()})
+					} else if got := wrap(&pipeline.CommandStep{Plugins: pl}); got != want {
+						c.res.Fail(core.OracleFailure{What: "Plugins.UnmarshalJSON of the list's own JSON gives a different list", Input: desc, Got: firstDiff(got, want)})
+					}
+				}
+				// the same plugins as one JSON object, in list order (only when the canonical sources are distinct)
+				var ob strings.Builder
+				seen := map[string]bool{}
+				ok := true
+				ob.WriteString("{")
+				for pi, plg := range st.Plugins {
+					kb, _ := json.Marshal(plg.FullSource())
+					vb, verr := json.Marshal(plg.Config)
+					if seen[plg.FullSource()] || verr != nil {
+						ok = false
+						break
+					}
+					seen[plg.FullSource()] = true
+					if pi > 0 {
+						ob.WriteString(",")
+					}
+					ob.Write(kb)
+					ob.WriteString(":")
+					ob.Write(vb)
+				}
+				ob.WriteString("}")
+				if ok {
+					var pl pipeline.Plugins
+					if err := json.Unmarshal([]byte(ob.String()), &pl); err != nil {
+						c.res.Fail(core.OracleFailure{What: "Plugins.UnmarshalJSON fails on the plugins written as one JSON object", Input: desc, Got: err.Error()})
+					} else if got := wrap(&pipeline.CommandStep{Plugins: pl}); got != want {
+						c.res.Fail(core.OracleFailure{What: "Plugins.UnmarshalJSON of the plugins written as one JSON object gives another list (order or content)", Input: map[string]any{"document": string(src), "plugins_json": ob.String()}, Got: firstDiff(got, want)})
+					}
+					c.res.Hist("c09.standalone-plugins-object-form")
+				}
+			}
+		}
 		for leg, text := range map[string][]byte{"json": jb, "yaml": yb} {
 			if leg == "json" && exoticTyped {
 				// scoping decision (DESIGN §7): typed-string positions take the four scalar kinds the unmarshaller
@@ -1365,6 +1456,21 @@ func c03CommandRules(c *ctx, desc map[string]any, i int, im, om vl.OMap, st *pip
 			if !ok || len(eo) != 1 {
 				fail("a plugin is not a single-entry object", vl.Enc(e), "", "")
 				continue
+			}
+			if j < len(st.Plugins) {
+				// the documented expansion of the two short forms, written out here (not taken from the library)
+				if m := c14ShortSourceRE.FindStringSubmatch(st.Plugins[j].Source); m != nil {
+					org, ref := "buildkite-plugins", m[3]
+					if m[1] != "" {
+						org = strings.TrimSuffix(m[1], "/")
+					}
+					if ref == "#" {
+						ref = ""
+					}
+					if want := "github.com/" + org + "/" + m[2] + "-buildkite-plugin" + ref; eo[0].K != want {
+						fail("a short-form plugin source is not keyed by its documented expansion", eo[0].K, want, "")
+					}
+				}
 			}
 			if j < len(st.Plugins) && eo[0].K != st.Plugins[j].FullSource() {
 				fail("a plugin is not keyed by its canonical source, in order", eo[0].K, st.Plugins[j].FullSource(), "")
